@@ -56,7 +56,8 @@ void AsyncFileAppender::discard(LogEntry& entry) noexcept {
 
 int AsyncFileAppender::close() noexcept {
   if (_write_thread.joinable()) {
-    _queue.push([](Item& target) {
+    // 消费侧不会执行futex唤醒，和write一样只能采用自旋等待的方式入队
+    _queue.push<true, false, false>([](Item& target) {
       target.entry.size = 0;
       target.file = nullptr;
     });
